@@ -30,7 +30,7 @@ theorem wellFormed_sound_complete (g : Graph α) (fs : List α) (reqs : List (α
   wellFormed_iff g fs reqs
 
 /-- … in particular for the graph extracted from a parsed manifest (nodes = canonicalised paths). -/
-theorem checker_decides_manifest (m : Manifest) (fs : List Str) (reqs : List (Str × Str)) :
+theorem checker_decides_manifest (m : Manifest) (fs : List String) (reqs : List (String × String)) :
     wellFormed m.graph fs reqs = true ↔ WellFormed m.graph fs reqs :=
   wellFormed_iff m.graph fs reqs
 
@@ -113,7 +113,7 @@ example :
         | .ok m => m.graph.edges.map (fun e => (e.outs, e.ins))
         | .error _ => [])
      | .error _ => [])
-    = [(["a b".toList, "i".toList], ["t.c".toList, "u".toList, "v".toList]), (["all".toList], ["a b".toList])] := by
+    = [(["a b", "i"], ["t.c", "u", "v"]), (["all"], ["a b"])] := by
   decide
 
 /-! ## (c) the emission discipline -/
